@@ -142,6 +142,7 @@ func (core *Core) absolute(rel int64) int {
 }
 
 func (core *Core) checkCancelation() *value.VmInterrupt {
+	vh("Poll", int64(core.Corenum), "")
 	select {
 	case <-(*core.CancelCtx).Done():
 		span := core.parent.SourceMap(*core.callFrame())
@@ -181,12 +182,14 @@ outer:
 	for len(self.CallStack) > 0 {
 		// Check cancelation
 		if i := self.checkCancelation(); i != nil {
+			vh("Offer", int64(self.Corenum), vhKind(i))
 			self.SignalHandle <- i
 			return
 		}
 
 		// Check for stack overflow
 		if len(self.Stack) > int(self.Limits.StackMaxSize) {
+			vh("Offer", int64(self.Corenum), "fatal")
 			self.SignalHandle <- self.fatalErr(
 				fmt.Sprintf("Runtime stack limit of %d was exceeded by %d", self.Limits.StackMaxSize, len(self.Stack)-int(self.Limits.StackMaxSize)),
 				value.VMFatalExceptionKind(value.Vm_StackOverFlowErrorKind),
@@ -197,6 +200,7 @@ outer:
 
 		// Check for callstack overflows
 		if len(self.CallStack) > int(self.Limits.CallStackMaxSize) {
+			vh("Offer", int64(self.Corenum), "fatal")
 			self.SignalHandle <- self.fatalErr(
 				fmt.Sprintf("Runtime callstack limit of %d was exceeded by %d", self.Limits.CallStackMaxSize, len(self.CallStack)-int(self.Limits.CallStackMaxSize)),
 				value.Vm_StackOverFlowErrorKind,
@@ -309,6 +313,7 @@ outer:
 				}
 			}
 
+			vhInstr(self, i)
 			if i := self.runInstruction(i); i != nil {
 				switch (*i).Kind() {
 				// Only non-fatal exceptions can be handled
@@ -317,6 +322,7 @@ outer:
 
 					// If there is no catch-block, terminate this core
 					if len(self.ExceptionCatchLabels) == 0 {
+						vh("Offer", int64(self.Corenum), "fatal")
 						self.SignalHandle <- self.fatalErr(throwError.Message(), value.Vm_UncaughtThrowKind, throwError.Span)
 						return
 					}
@@ -328,6 +334,7 @@ outer:
 					self.Stack = self.Stack[:catchLocation.StackHeight]
 					self.MemoryPointer = catchLocation.MemoryPointer
 					*self.callFrame() = catchLocation.CallFrame
+					vh("Catch", int64(self.Corenum), catchLocation.Function)
 
 					self.push(
 						value.NewValueObject(map[string]*value.Value{
@@ -337,6 +344,7 @@ outer:
 							"filename": value.NewValueString(throwError.Span.Filename),
 						}))
 				default:
+					vh("Offer", int64(self.Corenum), vhKind(i))
 					self.SignalHandle <- i // TODO: add universal stacktrace
 					return
 				}
@@ -344,5 +352,6 @@ outer:
 		}
 	}
 
+	vh("Offer", int64(self.Corenum), "nil")
 	self.SignalHandle <- nil
 }
